@@ -20,6 +20,7 @@ def _c(scen, vcs, acs, maxv, maxa, maxcalls, thorough=False, probe=0):
 
 
 F_ST = {'bytes': True, 'timing': True, 'tree': False, 'raw': False}
+F_STT = {'bytes': True, 'timing': True, 'tree': True, 'raw': False}
 F_ALL = {'bytes': True, 'timing': True, 'tree': True, 'raw': True}
 
 
@@ -28,14 +29,14 @@ def corpus_defs(tier):
     d = {}
     # --- av: every interleaving / reorder pattern / time step, both layouts --------------------
     d['av'] = dict(trace='TraceMuxide', mc=[
-        _mc(_c('av', '{"h264"}', '{"aac"}', 3, 2, 5, not q), rel='layout', facets=F_ST),
-        _mc(_c('av', '{"h265", "av1", "vp9"}', '{"aac", "opus"}', 2, 2, 4, not q), rel='layout', facets=F_ST),
-        _mc(_c('av', ALLV, '{"none"}', 3, 0, 3, not q), rel='layout', facets=F_ST),
-        _mc(_c('av', '{"h264"}', '{"opus"}', 2 if q else 3, 2, 4 if q else 5, not q), rel='layout', facets=F_ST),
+        _mc(_c('av', '{"h264"}', '{"aac"}', 3, 2, 5, not q), rel='layout', facets=F_STT),
+        _mc(_c('av', '{"h265", "av1", "vp9"}', '{"aac", "opus"}', 2, 2, 4, not q), rel='layout', facets=F_STT),
+        _mc(_c('av', ALLV, '{"none"}', 3, 0, 3, not q), rel='layout', facets=F_STT),
+        _mc(_c('av', '{"h264"}', '{"opus"}', 2 if q else 3, 2, 4 if q else 5, not q), rel='layout', facets=F_STT),
     ] + ([] if q else [
-        _mc(_c('av', '{"h264"}', '{"aac"}', 3, 3, 6, False), rel='layout', facets=F_ST),
-    ]), rand=[dict(gen='mux', n=150 if q else 3000, rel='layout', facets=F_ST),
-              dict(gen='mux_big', n=24 if q else 300, rel='layout', facets=F_ST)])
+        _mc(_c('av', '{"h264"}', '{"aac"}', 3, 3, 6, False), rel='layout', facets=F_STT),
+    ]), rand=[dict(gen='mux', n=150 if q else 3000, rel='layout', facets=F_STT),
+              dict(gen='mux_big', n=24 if q else 300, rel='layout', facets=F_STT)])
     # --- contract: every time class x frame class x entry point from every state class ---------
     cruns = []
     for pre in ([0, 1, 2] if q else [0, 1, 2, 3]):
@@ -99,6 +100,7 @@ def corpus_defs(tier):
     d['adts'] = dict(trace='TraceMuxide', rand=[dict(gen='adts', n=0, rel='none', facets={'bytes': True, 'timing': False, 'tree': False, 'raw': False})])
     # --- layout: all codec x audio x metadata x layout configurations; tree + raw facets --------
     d['layout'] = dict(trace='TraceMuxide', rand=[dict(gen='layout', n=0, rel='meta', facets=F_ALL)])
+    d['metalayout'] = dict(trace='TraceMuxide', rand=[dict(gen='metalayout', n=0, rel='layout', facets=None)])
     d['fraginit'] = dict(trace='TraceFrag', rand=[dict(gen='fraginit', n=0, rel=None, facets=None)])
     d['meta'] = dict(trace='TraceMuxide', mc=[
         _mc({'From': 0, 'To': 60000 if q else 2932896, 'Stride': 1}, module='MCMeta', invariants=('RoundTrip', 'Monotone'), properties=()),
